@@ -50,10 +50,12 @@ Record st := mk {
   slots : list rid;      (* token sent into the one-shot, not yet received *)
   held : list rid;       (* `Acquired` in the requester's hands, no process (yet) *)
   running : list rid;    (* `Child { inner, token }` alive *)
-  orphans : list rid     (* processes whose `Child` was dropped: alive, no token *)
+  orphans : list rid;    (* processes whose `Child` was dropped: alive, no token *)
+  draining : list rid    (* the process has exited and its token is BACK; the request still waits for EOF on the
+                            process' stdout/stderr (something the compiler started may still hold them) *)
 }.
 
-Definition init (n : N) : st := mk n 0 false [] [] [] [] [] [].
+Definition init (n : N) : st := mk n 0 false [] [] [] [] [] [] [].
 
 Inductive event :=
 | Request (r : rid)          (* first poll of acquire(): requests += 1, sender queued *)
@@ -64,51 +66,56 @@ Inductive event :=
 | DropHeld (r : rid)         (* `Acquired` dropped without a process *)
 | Start (r : rid)            (* process spawned; Child holds the token *)
 | SpawnFail (r : rid)        (* spawn failed after the token was acquired *)
-| Exit (r : rid) (ok : bool) (* wait completed (exit status success / failure), token dropped *)
+| Exit (r : rid) (ok : bool) (* the process has exited (status success / failure / killed): `Child::wait` completes and drops
+                                the token AT ONCE — in `wait_with_input_output` the wait runs concurrently with the pipe
+                                drains, it does not wait for EOF on stdout/stderr *)
 | DropRunning (r : rid)      (* Child dropped while the process runs *)
-| OrphanExit (r : rid).      (* an orphaned process ends *)
+| OrphanExit (r : rid)       (* an orphaned process ends *)
+| Done (r : rid).            (* stdout/stderr of an exited process reached EOF (or the request was dropped): the request ends *)
 
 Definition active (s : st) (r : rid) : bool :=
-  mem r (queue s) || mem r (slots s) || mem r (held s) || mem r (running s) || mem r (orphans s).
+  mem r (queue s) || mem r (slots s) || mem r (held s) || mem r (running s) || mem r (orphans s) || mem r (draining s).
 
 Definition step (s : st) (e : event) : option st :=
-  let '(mk p q h qu g sl he ru orp) := s in
+  let '(mk p q h qu g sl he ru orp dr) := s in
   match e with
   | Request r =>
       if active s r then None
-      else Some (mk p (q + 1) h (qu ++ [r]) g sl he ru orp)
+      else Some (mk p (q + 1) h (qu ++ [r]) g sl he ru orp dr)
   | HelperAcquire =>
       if h then None
       else if q =? 0 then None
       else if p =? 0 then None
-      else Some (mk (p - 1) (q - 1) true qu g sl he ru orp)
+      else Some (mk (p - 1) (q - 1) true qu g sl he ru orp dr)
   | Deliver =>
       if h then
         match qu with
         | [] => None
         | x :: qu' =>
-            if mem x g then Some (mk (p + 1) q false qu' (del x g) sl he ru orp)
-            else Some (mk p q false qu' g (sl ++ [x]) he ru orp)
+            if mem x g then Some (mk (p + 1) q false qu' (del x g) sl he ru orp dr)
+            else Some (mk p q false qu' g (sl ++ [x]) he ru orp dr)
         end
       else None
   | Receive r =>
-      if mem r sl then Some (mk p q h qu g (del r sl) (he ++ [r]) ru orp) else None
+      if mem r sl then Some (mk p q h qu g (del r sl) (he ++ [r]) ru orp dr) else None
   | Cancel r =>
-      if mem r sl then Some (mk (p + 1) q h qu g (del r sl) he ru orp)
-      else if mem r qu && negb (mem r g) then Some (mk p q h qu (r :: g) sl he ru orp)
+      if mem r sl then Some (mk (p + 1) q h qu g (del r sl) he ru orp dr)
+      else if mem r qu && negb (mem r g) then Some (mk p q h qu (r :: g) sl he ru orp dr)
       else None
   | DropHeld r =>
-      if mem r he then Some (mk (p + 1) q h qu g sl (del r he) ru orp) else None
+      if mem r he then Some (mk (p + 1) q h qu g sl (del r he) ru orp dr) else None
   | SpawnFail r =>
-      if mem r he then Some (mk (p + 1) q h qu g sl (del r he) ru orp) else None
+      if mem r he then Some (mk (p + 1) q h qu g sl (del r he) ru orp dr) else None
   | Start r =>
-      if mem r he then Some (mk p q h qu g sl (del r he) (ru ++ [r]) orp) else None
+      if mem r he then Some (mk p q h qu g sl (del r he) (ru ++ [r]) orp dr) else None
   | Exit r _ =>
-      if mem r ru then Some (mk (p + 1) q h qu g sl he (del r ru) orp) else None
+      if mem r ru then Some (mk (p + 1) q h qu g sl he (del r ru) orp (dr ++ [r])) else None
   | DropRunning r =>
-      if mem r ru then Some (mk (p + 1) q h qu g sl he (del r ru) (orp ++ [r])) else None
+      if mem r ru then Some (mk (p + 1) q h qu g sl he (del r ru) (orp ++ [r]) dr) else None
   | OrphanExit r =>
-      if mem r orp then Some (mk p q h qu g sl he ru (del r orp)) else None
+      if mem r orp then Some (mk p q h qu g sl he ru (del r orp) dr) else None
+  | Done r =>
+      if mem r dr then Some (mk p q h qu g sl he ru orp (del r dr)) else None
   end.
 
 Fixpoint run (s : st) (es : list event) : option st :=
@@ -184,11 +191,19 @@ Fixpoint burst (n : nat) (r0 : rid) : list event :=
 
 (* request kinds: 0 = bare `Client::acquire()`, the caller keeps the `Acquired`;
    1 / 2 = `AsyncCommand::spawn()` then `Child::wait()` of a process that exits 0 / non-zero;
-   3 = `AsyncCommand::spawn()` of a program that does not exist *)
+   3 = `AsyncCommand::spawn()` of a program that does not exist;
+   4..8 = `util::run_input_output` (spawn, feed stdin, drain stdout/stderr, wait) of a process that
+     4 exits 0 / 5 exits 1 while something it started still holds its stdout and stderr,
+     6 writes more than a pipe buffer to stdout and stderr and exits 0,
+     7 is fed more than a pipe buffer on stdin, never reads it, exits 0,
+     8 kills itself (SIGKILL) *)
+Definition kind_ok (k : N) : bool := (k =? 1) || (k =? 4) || (k =? 6) || (k =? 7).
+Definition kind_leaves_pipes_open (k : N) : bool := (k =? 4) || (k =? 5).
 Inductive sop :=
 | OReq (r : rid) (kind : N)  (* create the future and poll it once *)
 | OPoll                      (* poll every pending future once, in increasing id order *)
-| OWait (r : rid)            (* poll r's future until the process has exited *)
+| OWait (r : rid)            (* poll r's future until the process has exited (and the token is back) *)
+| OFinish (r : rid)          (* close what still holds r's pipes and poll r's future to completion *)
 | ODrop (r : rid).           (* drop whatever r is at this point: pending future, Acquired, or Child *)
 
 Fixpoint kind_of (r : rid) (ks : list (rid * N)) : N :=
@@ -242,7 +257,8 @@ Definition pending (s : st) : list rid :=
 
 (* one script step.  `req`: first poll, helper to completion, second poll of the same future.
    `poll`: every pending future once, the helper running to completion after each.
-   `wait`: until the process has exited.  `drop`: whatever r is now. *)
+   `wait`: until the process has exited: the token is back; the request itself is over too unless something
+   still holds the process' pipes.  `finish`: that something is killed.  `drop`: whatever r is now. *)
 Definition sop_step (ks : list (rid * N)) (s : st) (o : sop) : st * list event :=
   match o with
   | OReq r _ =>
@@ -252,10 +268,16 @@ Definition sop_step (ks : list (rid * N)) (s : st) (o : sop) : st * list event :
         let '(s2, d2) := step_settle s1 (poll_events ks r) in
         (s2, d1 ++ d2)
   | OPoll => poll_all ks s (pending s)
-  | OWait r => if mem r (running s) then step_settle s [Exit r (kind_of r ks =? 1)] else (s, [])
+  | OWait r =>
+      if mem r (running s) then
+        let k := kind_of r ks in
+        step_settle s (Exit r (kind_ok k) :: (if kind_leaves_pipes_open k then [] else [Done r]))
+      else (s, [])
+  | OFinish r => if mem r (draining s) then step_settle s [Done r] else (s, [])
   | ODrop r =>
       step_settle s (if mem r (running s) then [DropRunning r]
                      else if mem r (held s) then [DropHeld r]
+                     else if mem r (draining s) then [Done r]
                      else [Cancel r])
   end.
 
@@ -273,3 +295,31 @@ Fixpoint script (ks : list (rid * N)) (s : st) (os : list sop) : list (list even
       let '(s', d) := sop_step ks' s o in
       (d, s') :: script ks' s' r
   end.
+
+(* ---------- how the server obtains its client (src/jobserver.rs `Client::new`, `new_num`, `_new`) ---------- *)
+
+(* `_new(inner, inherited)`: with inherited = true there is no helper thread and no channel, and `acquire()`
+   returns `Acquired { _token: None }` at once — nothing limits the callers.  Only `new_num` (hence `new`)
+   is ever called in the crate, always with inherited = false. *)
+Record client := mkc {
+  c_limited : bool;   (* helper thread + channel present: every Acquired wraps a real token of the pool *)
+  c_tokens : N        (* size of the client's own pool *)
+}.
+
+(* what the process environment says about a jobserver of the build that started the server *)
+Inductive makeflags :=
+| MfNone                      (* no MAKEFLAGS / CARGO_MAKEFLAGS / MFLAGS *)
+| MfFifo (tokens : N)         (* --jobserver-auth=fifo:PATH, a reachable named fifo holding tokens (GNU make >= 4.4) *)
+| MfFds (open : bool)         (* --jobserver-auth=R,W; the descriptors are still open or were closed by daemonize *)
+| MfGarbage.                  (* flags without / with an unparsable jobserver *)
+
+Definition client_new_num (n : N) : client := mkc true n.
+Definition client_inherited : client := mkc false 0.
+
+(* `Client::new()` = `new_num(util::num_cpus())`: a pool of its own, whatever the environment *)
+Definition client_new (ncpus : N) (mf : makeflags) : client := client_new_num ncpus.
+
+(* a burst of m simultaneous `acquire()`s on an idle client: how many hold an `Acquired` at once, and how many of
+   those are empty *)
+Definition granted_at_once (c : client) (m : N) : N := if c_limited c then N.min m (c_tokens c) else m.
+Definition empty_acquireds (c : client) (m : N) : N := if c_limited c then 0 else m.
